@@ -801,6 +801,17 @@ func main() {
 	o.Info["skew_settings_ns"] = []int64{0, int64(time.Hour), 1 << 62}
 
 	h.witnesses()
+	h.cloneWitness()
+
+	// complete values (all 13 NodeState fields, ViewID, nil maps, nil entries) on fully unshared operands,
+	// with the report of who shares which object afterwards (coq/Cluster/ViewFull.v on ViewHeap.v)
+	h.fullDomain()
+	nFull := 250
+	if thorough {
+		nFull = 20000
+	}
+	h.fullOps(nFull)
+	o.Info["complete_value_rounds"] = nFull
 
 	// IsNewerThan: exhaustive over id{a,b} x gen{1,2} x lc{0,1,2} x ts{1,2}
 	var sts []St
